@@ -2,7 +2,8 @@
 (* C16 - trace specification: the byte stream a raw socket client read from the real HttpServer, split into *)
 (* responses by the harness' strict reference splitter (harness/drv_httppipe.cpp), judged against what the   *)
 (* property demands of one persistent connection.                                                            *)
-(*   Begin{reqs}     the pipeline that was written in ONE send: records [k, n, close] (HttpPipeline.tla)      *)
+(*   Begin{reqs}     the pipeline that was written in ONE send: records [k, n, close, sp] (HttpPipeline.tla;  *)
+(*                   close = the Connection field contains the token close in whatever spelling sp)           *)
 (*   Release{i}      the harness lets the (gated) handler of request i return                                 *)
 (*   Resp{for, st, cl, bl, fill}   the next complete response on the wire: for = request id echoed by the     *)
 (*                   handler in X-Req (0: a response the server produced without a handler), status, the      *)
@@ -44,7 +45,7 @@ vars == <<l, reqs, released, answered, used, xn, ok>>
 
 Init == l = 1 /\ reqs = <<>> /\ released = {} /\ answered = <<>> /\ used = {} /\ xn = 0 /\ ok = TRUE
 
-Gated(r) == r.k \in {"G", "H", "P", "C", "T", "R", "L"}
+Gated(r) == r.k \in {"G", "H", "P", "C", "T", "R", "L", "S204", "S304", "HS204", "HS304"}
 Closing(r) == r.close \/ r.k \in {"B", "U"}
 RespOptional(r) == r.k \in {"B", "U"}
 N == Len(reqs)
@@ -61,6 +62,11 @@ Fits(ev, j) ==
     /\ CASE r.k \in {"G", "P", "C", "R"} -> ev.st = 200 /\ ev.cl = r.n /\ ev.bl = r.n /\ ev.fill
          [] r.k = "L" -> ev.st = 200 /\ ev.cl = r.n * 1024 /\ ev.bl = r.n * 1024 /\ ev.fill
          [] r.k = "H" -> ev.st = 200 /\ ev.cl = r.n /\ ev.bl = 0
+         \* content set through the response API, then a bodiless status: either no body octets at all, or a
+         \* Content-Length that is exactly the octets that follow (the property's wording) - never stray octets
+         [] r.k \in {"S204", "S304"} -> /\ ev.st = (IF r.k = "S204" THEN 204 ELSE 304)
+                                         /\ ev.bl = 0 \/ (ev.cl = r.n /\ ev.bl = r.n /\ ev.fill)
+         [] r.k \in {"HS204", "HS304"} -> ev.st = (IF r.k = "HS204" THEN 204 ELSE 304) /\ ev.bl = 0
          [] r.k = "T" -> ev.st = 500 /\ ev.cl = ev.bl
          [] r.k = "N" -> ev.st = 404 /\ ev.cl = ev.bl
          [] r.k = "M" -> ev.st = 405 /\ ev.cl = ev.bl
